@@ -51,22 +51,25 @@ def gen_case(rng, quick=True):
         # boxes); that hang is not the subject of this property: positive integrands on [0,b]
         a = [0] * dim
         comps = [[[abs(c), e] for c, e in terms] for terms in comps]
+    # magnitudes: the property speaks about RELATIVE deviations, for every integrand and reference - components scaled by 2**k
+    comps, ks = LG.scale_comps(rng, comps)
+    unit = [2.0 ** k for k in ks]
     exact = A.poly_integral(comps, a, b)
     rr = rng.random()
     if rr < 0.55:
         ref = [float(x) for x in exact]
     elif rr < 0.75:     # some other reference (the driver must report the deviation from whatever it is given)
-        ref = [float(x) + rng.choice([0.5, -0.25, 1.0, 0.125]) for x in exact]
+        ref = [float(x) + rng.choice([0.5, -0.25, 1.0, 0.125]) * u for x, u in zip(exact, unit)]
     elif rr < 0.87:
         ref = [0.0] * nout
     else:
         ref = None
     if ref is not None and any(x == 0.0 for x in ref) and not all(x == 0.0 for x in ref):
-        ref = [x if x != 0.0 else 1.0 for x in ref]        # partly-zero references: relative deviation undefined, excluded
+        ref = [x if x != 0.0 else u for x, u in zip(ref, unit)]        # partly-zero references: relative deviation undefined (division by zero in the code), excluded
     if strat == 'da' and (ref is None or any(x == 0.0 for x in ref)):
-        ref = [x if x != 0.0 else 1.0 for x in ([float(x) for x in exact] if ref is None else ref)]   # perform_combi asserts/divides
+        ref = [x if x != 0.0 else u for x, u in zip([float(x) for x in exact] if ref is None else ref, unit)]   # perform_combi asserts/divides
     case = dict(strat=strat, a=a, b=b, comps=comps, ref=ref, norm=rng.choice([0, 0, 1, 2]), boundary=rng.random() < 0.8,
-                lmin=1, lmax=2, seed=rng.randrange(1 << 30))
+                lmin=1, lmax=2, seed=rng.randrange(1 << 30), scales=ks)
     if strat in ('dw', 'es', 'cell'):
         # histories on one object: the test history reuses the probe's operation (as the repo's tests do) or the instance itself
         # (a second performSpatiallyAdaptiv on the same cell-scheme instance does not terminate: its refinement finds nothing to
@@ -382,14 +385,16 @@ def rel_error_py(case, result):
     return sum(x * x for x in dev) / len(dev)
 
 
-def close(impl_float, exact, nm, scale=1.0):
+def close(impl_float, exact, nm, scale=0.0):
+    """reported float vs exact value (of the same float inputs): RELATIVE 1e-12 - no absolute slack, the quantities live on any scale
+    (|(r - i) / r| is computed with relative rounding only: the subtraction is exact or rounds relatively, sums have non-negative terms)"""
     v = Fraction(impl_float) if impl_float == impl_float and abs(impl_float) != float('inf') else None
     if v is None:
         return False
     if nm == 2:
         v = v * v
-        return abs(v - exact) <= EPS * 4 * (abs(exact) + Fraction(scale) * Fraction(scale) * Fraction(1, 10 ** 4))
-    return abs(v - exact) <= Fraction(EPS) * (abs(exact) + Fraction(scale))
+        return abs(v - exact) <= Fraction(EPS) * 4 * abs(exact)
+    return abs(v - exact) <= Fraction(EPS) * abs(exact)
 
 
 def oracle_adaptive(case, history, run):
@@ -456,7 +461,7 @@ def oracle_adaptive(case, history, run):
                 # the returned result is the one the last error was computed from (bit-identical; with reevaluate_at_end the
                 # combination is recomputed from scratch: equal up to rounding)
                 same = rec['result'] == evs[-1]['result'] if not case.get('reeval') else \
-                    all(abs(A.unfl(x) - A.unfl(y)) <= 1e-12 * (abs(A.unfl(x)) + abs(A.unfl(y)) + 1) for x, y in zip(rec['result'], evs[-1]['result']))
+                    all(abs(A.unfl(x) - A.unfl(y)) <= 1e-12 * (abs(A.unfl(x)) + abs(A.unfl(y)) + LG.magnitude(case)) for x, y in zip(rec['result'], evs[-1]['result']))
                 if not same:
                     bad.append(('result-differs', '%s: returned result is not the result the last error was computed from' % what))
         else:
@@ -731,7 +736,7 @@ def check_std(chk, case, r, mjobs):
             chk.violation('corr:C13/points', 'point-count-differs', sig, case, dict(model=str(mres[jp]), impl=r['total_points'], distinct=r['distinct']),
                           failing_input=r['total_points'] != r['distinct'])
         if je is not None:
-            if not close(A.unfl(r['error']), sx.q(mres[je]), case.get('norm', 0), scale=max(abs(x) for x in case['ref']) + 1):
+            if not close(A.unfl(r['error']), sx.q(mres[je]), case.get('norm', 0)):
                 chk.violation('corr:C13/error', 'error-estimate-differs', dict(sig, norm=case.get('norm', 0)), case,
                               dict(model=str(mres[je]), impl=A.unfl(r['error'])), failing_input=False)
         elif r['error'] is not None:
@@ -775,6 +780,11 @@ def run(chk):
                 if k in c:
                     chk.count('%s:%s=%s' % (c['strat'], k, c[k] if not isinstance(c[k], list) else c[k][0]))
             chk.count('nout=%s' % (len(c['comps']) if len(c['comps']) < 4 else '17..130')); chk.count('lmax=%d' % c['lmax'])
+            sc = c.get('scales') or [0]
+            chk.count('integrand scale 2^k: %s' % ('k=0' if set(sc) == {0} else 'mixed over components' if len(set(sc)) > 1 else 'k=%d' % sc[0]))
+            if c['ref'] is not None and any(x != 0 for x in c['ref']):
+                mx = max(abs(x) for x in c['ref'])
+                chk.count('non-zero reference, largest component %s' % ('<= 1e-8 (tiny)' if mx <= 1e-8 else '< 1e-3' if mx < 1e-3 else '<= 1e3' if mx <= 1e3 else '> 1e3'))
             slow.append((round(r.get('secs', 0), 1), c['strat'], str(c.get('grid', c.get('ggrid'))), len(c['a']), c['probe_max'], len(hist)))
             chk.count('probe-points=%s' % ('<100' if r['probe']['num_point_array'][-1] < 100 else '<400' if r['probe']['num_point_array'][-1] < 400 else '<1100' if r['probe']['num_point_array'][-1] < 1100 else '1100+'))
             prev = None
